@@ -428,6 +428,7 @@ func main() {
 		seenWide[sig] = true
 		run.Report(sig, f.detail, map[string]any{"kind": "wide", "what": f.detail})
 	}
+	racePass(run)
 	if importDisagree != "" {
 		run.Report("C08|import|ImportString-differs-from-its-only-matcher", importDisagree, map[string]any{"kind": "import-dispatch", "what": importDisagree})
 	}
